@@ -41,10 +41,10 @@ CHECKS = {
                 text="the context-manager protocol of transactions (TransactionalContext.__enter__ / __exit__ / _trans_ctx_check) is proved: entering links the transaction to its subject and remembers the enclosing one; leaving restores the enclosing link and clears its own on all 26 paths (commit, rollback, close, and exceptions out of any of them); using the subject inside a block whose transaction has ended raises. The end of life of the concrete classes is proved too: RootTransaction._close_impl/_do_commit (detached and inactive on every exit) and NestedTransaction._deactivate_from_connection / _close_impl / _do_commit (inactive on every exit, popped off the connection, the enclosing savepoint becomes current) / _cancel (recursive, over a ghost chain of handles: every savepoint handle ends inactive and none stays current, also after out-of-order ends). Bounded complement: ghost nested-transaction model after every step of every operation sequence on file-backed SQLite, incl. recovery after a first deviation.",
                 note="abstract contracts on the operations called through the context manager; Connection.begin/begin_nested and NestedTransaction.__init__ (which builds the chain) bounded only; SQLite stands for a backend"),
     "C24": dict(level="proof", technique=PROOF_TECH, design="DESIGN.md §5 C24",
-                text="the reset path is proved: _ConnectionFairy._reset leaves no open transaction for reset_on_return rollback/commit (or was told, under a call-site precondition, that the transaction is already reset) and DefaultDialect.reset_isolation_level restores the engine-wide level; DefaultDialect._set_connection_characteristics schedules exactly one reset finalizer per call behind those already pending (none when the call is refused); ghost txn_open / iso_level per DBAPI connection. Bounded complement: all pool histories on a fake DBAPI incl. multi-call / engine-level execution options.",
+                text="the reset path is proved: _ConnectionFairy._reset leaves no open transaction for reset_on_return rollback/commit (or was told, under a call-site precondition, that the transaction is already reset) and DefaultDialect.reset_isolation_level restores the engine-wide level; DefaultDialect._set_connection_characteristics schedules exactly one reset finalizer per call behind those already pending (none when the call is refused); _finalize_fairy (end of a checkout, explicit or by the garbage collector; sync dialects, non-detached) runs the reset, invalidates the record when the reset fails with an Exception, checks the record in exactly once and ignores stale gc callbacks; ghost txn_open / iso_level per DBAPI connection. Bounded complement: all pool histories on a fake DBAPI incl. multi-call / engine-level execution options.",
                 note="assumed driver contracts (do_rollback/do_commit/_assert_and_set_isolation_level); _finalize_fairy, checkin and Connection.close only in the bounded complement; server-side state outside"),
     "C26": dict(level="proof", technique=PROOF_TECH, design="DESIGN.md §5 C26",
-                text="the _ConnectionRecord layer is proved against a ghost 'closed' flag per DBAPI connection: __connect leaves no half-open record when the creator fails, invalidate/close/__close close what they drop, get_connection never hands out a closed connection nor one that predates a pool-wide or soft invalidation (it is closed and replaced by a fresh one; on failure the record holds nothing), checkin runs every finalizer and returns the record exactly once (never on a double check-in); _checkin_failed (failed checkout) empties the record and hands it back once; QueuePool._do_get gives its overflow claim back when the creator fails with ANY exception class (shared with C25). Bounded complement: a fault of four exception classes (DBAPI error, disconnect, plain Exception, BaseException) at every DBAPI call position of every pool history.",
+                text="the _ConnectionRecord layer is proved against a ghost 'closed' flag per DBAPI connection: __connect leaves no half-open record when the creator fails, invalidate/close/__close close what they drop, get_connection never hands out a closed connection nor one that predates a pool-wide or soft invalidation (it is closed and replaced by a fresh one; on failure the record holds nothing), checkin runs every finalizer and returns the record exactly once (never on a double check-in); _checkin_failed (failed checkout) empties the record and hands it back once; _finalize_fairy checks a finished checkout in exactly once (shared with C24); QueuePool._do_get gives its overflow claim back when the creator fails with ANY exception class (shared with C25). Bounded complement: a fault of four exception classes (DBAPI error, disconnect, plain Exception, BaseException) at every DBAPI call position of every pool history.",
                 note="assumed externals (_invoke_creator, _close_connection, _return_conn); event hooks do not raise; checkout/_finalize_fairy/pre-ping retry loop bounded only"),
     "C27": dict(level="proof", technique=PROOF_TECH, design="DESIGN.md §5 C27",
                 text="Connection._handle_dbapi_exception is proved on every exit (it never returns): the per-call flags are reset; an error classified as a disconnect (dialect, exit exception, or handle_error listener) leaves the Connection without a DBAPI connection (invalidated) and the pool is told only together with that; an ordinary error invalidates nothing. Connection.invalidate, _revalidate_connection (an invalidated connection gets a fresh DBAPI connection only when no transaction is pending; a closed one never) and the closed / invalidated properties are proved against their definitions. The end of life of a root transaction is proved too (RootTransaction._close_impl, _do_commit, _deactivate_from_connection, 148 obligations over all paths incl. the DBAPI rollback/commit raising): it is deactivated and `connection._transaction is not self` on every exit of rollback/close, so an invalidated connection never keeps a dead transaction that would block reconnecting. Bounded complement: a disconnect / ordinary error injected at every DBAPI call position of every history on a fake DBAPI, 4 handle_error listener modes.",
